@@ -545,6 +545,92 @@ async fn respawn_case(path: Respawn, hook: Hook, casedir: &Path, helper: &Path) 
 }
 
 // ---------------------------------------------------------------------------------------------
+// busy-executable leg (runs in a child process of the check: it changes the working directory)
+
+/// Child side: `h-enum C18 --busy-leg <dir>`. The program is the relative path `./h`; the spawn
+/// hook moves the child into `<dir>/hooked`, where `h` is open for writing (exec fails with
+/// ETXTBSY); this process itself sits in `<dir>/elsewhere`, where another copy of `h` is fine.
+/// Whatever the job does about the failed spawn, a process that runs without the hook's
+/// working directory and environment shows up as `elsewhere/dump.json`.
+pub fn busy_child(dir: &str) -> i32 {
+	let root = PathBuf::from(dir);
+	let (hooked, elsewhere) = (root.join("hooked"), root.join("elsewhere"));
+	if std::env::set_current_dir(&elsewhere).is_err() {
+		println!("BUSY machinery: cannot enter {}", elsewhere.display());
+		return 2;
+	}
+	let Ok(_writer) = std::fs::OpenOptions::new().write(true).open(hooked.join("h")) else {
+		println!("BUSY machinery: cannot open the program for writing");
+		return 2;
+	};
+	let rt = tokio::runtime::Builder::new_multi_thread().worker_threads(2).enable_all().build().expect("rt");
+	let errors = rt.block_on(async {
+		let command = Arc::new(Command { program: Program::Exec { prog: PathBuf::from("./h"), args: vec![] }, options: Default::default() });
+		let (job, task) = start_job(command);
+		let errs: Arc<std::sync::Mutex<Vec<String>>> = Arc::default();
+		let e2 = errs.clone();
+		job.set_error_handler(move |e| {
+			e2.lock().unwrap().push(e.get().map_or_else(|| "error".to_string(), ToString::to_string));
+		});
+		let h2 = hooked.clone();
+		job.set_spawn_hook(move |c, _| {
+			c.command_mut().current_dir(&h2).env(PROBE_VAR, PROBE_VAL);
+		});
+		job.start().await;
+		let _ = tokio::time::timeout(Duration::from_secs(10), job.to_wait()).await;
+		tokio::time::sleep(Duration::from_millis(300)).await;
+		job.delete_now().await;
+		let _ = tokio::time::timeout(Duration::from_secs(10), task).await;
+		let n = errs.lock().unwrap().len();
+		n
+	});
+	rt.shutdown_timeout(Duration::from_secs(2));
+	println!("BUSY errors={errors} ran_in_hooked={} ran_elsewhere={}", hooked.join("dump.json").exists(), elsewhere.join("dump.json").exists());
+	0
+}
+
+fn busy_leg(out: &mut EnumOut, helper: &Path) {
+	let scratch = Scratch::new("c18-busy");
+	let root = scratch.path().to_path_buf();
+	for d in ["hooked", "elsewhere"] {
+		let _ = std::fs::create_dir_all(root.join(d));
+		if std::fs::copy(helper, root.join(d).join("h")).is_err() {
+			out.extra.insert("busy_executable_leg".into(), json!("skipped: cannot copy the helper"));
+			return;
+		}
+	}
+	let Ok(exe) = std::env::current_exe() else { return };
+	let mut cmd = std::process::Command::new(exe);
+	cmd.args(["C18", "--busy-leg", &root.to_string_lossy()]);
+	let Some(o) = dex::orch::output_with_timeout(cmd, 60) else {
+		out.extra.insert("busy_executable_leg".into(), json!("not completed within its wall limit"));
+		return;
+	};
+	let text = String::from_utf8_lossy(&o.stdout).to_string();
+	let line = text.lines().find(|l| l.starts_with("BUSY ")).unwrap_or("").to_string();
+	out.states += 1;
+	out.evaluations += 1;
+	out.extra.insert("busy_executable_leg".into(), json!(line));
+	if line.contains("machinery") || line.is_empty() {
+		return;
+	}
+	if line.contains("ran_elsewhere=true") {
+		out.violate(
+			"C18/spawn-hook/child-spawned-without-the-hook/after-a-failed-spawn",
+			format!("program ./h, spawn hook sets the working directory to hooked/ (where ./h is busy) and {PROBE_VAR}: a process ran in the supervisor's own directory instead — {line}"),
+			json!({"layer": "busy"}),
+		);
+	}
+	if line.contains("ran_in_hooked=true") {
+		// it ran where the hook sent it (the file was not busy after all): check the env too
+		let d: Value = std::fs::read_to_string(root.join("hooked/dump.json")).ok().and_then(|s| serde_json::from_str(&s).ok()).unwrap_or(Value::Null);
+		if bytes_of(&d["probe"]).as_deref() != Some(PROBE_VAL.as_bytes()) {
+			out.violate("C18/spawn-hook/env-not-applied/busy-leg", line, json!({"layer": "busy"}));
+		}
+	}
+}
+
+// ---------------------------------------------------------------------------------------------
 // CLI
 
 fn cli_argv(c: &CliCase, dir: &Path) -> Vec<OsString> {
@@ -667,6 +753,15 @@ pub fn replay(input: &Value) -> Vec<(String, String)> {
 				Ok((v, _)) => v,
 				Err(e) => vec![("C18/replay/machinery".into(), e)],
 			}
+		}
+		"busy" => {
+			let helper = match helper_path() {
+				Ok(h) => h,
+				Err(e) => return vec![("C18/replay/machinery".into(), e)],
+			};
+			let mut o = EnumOut::new("replay");
+			busy_leg(&mut o, &helper);
+			o.violations.into_iter().map(|c| (c.key, c.detail)).collect()
 		}
 		"respawn" => {
 			let (Ok(path), Ok(hook)) = (serde_json::from_value::<Respawn>(input["path"].clone()), serde_json::from_value::<Hook>(input["hook"].clone())) else {
@@ -902,6 +997,7 @@ pub fn run(tier: Tier, seed: u64) -> EnumOut {
 	out.merge(par_map(&spawns, threads.min(4), &worker));
 	out.extra.insert("wall_s_inspect_and_cli".into(), json!(((t1 - t0).as_secs_f64() * 10.0).round() / 10.0));
 	out.extra.insert("wall_s_real_spawn".into(), json!((t1.elapsed().as_secs_f64() * 10.0).round() / 10.0));
+	busy_leg(&mut out, &helper);
 	out.rule = rule.to_string();
 	out.assumptions = vec![
 		"Linux: pid / pgid / sid read by the child from /proc/self/stat".into(),
